@@ -556,6 +556,17 @@ class Randomizer(RandIF):
             f.set_used_rand(True, 0, in_set)
 
     @staticmethod
+    def _finalize_randsz_lists(fm, in_set):
+        if fm in in_set:
+            return
+        in_set.add(fm)
+        if hasattr(fm, "field_l"):
+            if getattr(fm, "is_rand_sz", False) and fm.is_used_rand:
+                del fm.field_l[int(fm.size.get_val()):]
+            for f in fm.field_l:
+                Randomizer._finalize_randsz_lists(f, in_set)
+
+    @staticmethod
     def _trim_randsz_lists(fm, in_set):
         if fm in in_set:
             return
@@ -715,6 +726,12 @@ class Randomizer(RandIF):
                 randomize_done(srcinfo, solve_info)
             for fm in field_model_l:
                 ConstraintOverrideRollbackVisitor.rollback(fm)
+
+        # post_randomize sees the final lists: a random-size list drops the 
+        # elements it was grown by for solving before any callback runs
+        in_set = set()
+        for fm in field_model_l:
+            Randomizer._finalize_randsz_lists(fm, in_set)
 
         visited = [] 
         for fm in field_model_l:
